@@ -436,6 +436,16 @@ def equality_clause(n, seed, acc):
         ("negzero:diagonal", lambda: M.DiagonalMatrix(np.where(np.arange(n) == 0, -0.0, Dz)),
          lambda: M.DiagonalMatrix(np.where(np.arange(n) == 0, 0.0, Dz))),
     ]
+    # the same numbers held as integers and as floats
+    Ai = np.arange(1, n * n + 1).reshape(n, n) + 3 * np.eye(n, dtype=int)
+    layout_pairs += [
+        ("dtype:dense_square", lambda: M.DenseSquareMatrix(Ai.astype(np.int64)),
+         lambda: M.DenseSquareMatrix(Ai.astype(np.float64))),
+        ("dtype:diagonal", lambda: M.DiagonalMatrix(np.arange(1, n + 1)),
+         lambda: M.DiagonalMatrix(np.arange(1.0, n + 1))),
+        ("dtype:triangular", lambda: M.TriangularMatrix(np.tril(Ai).astype(np.int32)),
+         lambda: M.TriangularMatrix(np.tril(Ai).astype(np.float64))),
+    ]
     for label, fa, fb in layout_pairs:
         acc.count("equality_pairs")
         try:
